@@ -20,7 +20,7 @@ pub const DEF: PropDef = PropDef {
     ],
     run,
     replay,
-    cap_s: (55, 900),
+    cap_s: (55, 2400),
     shards: 0,
 };
 
